@@ -59,6 +59,8 @@ type inputRec struct {
 }
 
 type Exec struct {
+	ffApps []ffApp // float-text contract applications on the current path (FormatFloat)
+	pfApps []pfApp // ... (ParseFloat / PF)
 	procs int64 // runtime.GOMAXPROCS as set by the program (0 = default)
 	P       *Program
 	tb      *TB
